@@ -65,6 +65,15 @@ func init() {
 }
 
 func init() {
+	// C03: constants defined by a comparison have the value of the comparison
+	verifProtocolScenarios = append(verifProtocolScenarios, verifScenario{"C03/interp.compareConst/*", func() (bool, string) {
+		out, err := verifOutput("package main\nimport \"fmt\"\nconst a = 1 < 2\nconst b = \"x\" == \"y\"\nconst c = 1.5 > 1\nconst d = !a\nfunc main() { fmt.Println(a, b, c, d) }")
+		want := "true false true false\n"
+		return out != want || err != nil, fmt.Sprintf("output %q (err %v), compiled Go prints %q", out, err, want)
+	}})
+}
+
+func init() {
 	// C12: programs the Go type checker rejects; Eval must return an error (not panic) and run nothing
 	rejectedCleanly := func(src string) func() (bool, string) {
 		return func() (observed bool, detail string) {
